@@ -177,7 +177,7 @@ def execute(case):
     faults = {"clock_jump": 0, "boundary": 0, "backstep": 0, "skew": 0, "tick": 0}
     probes = {"omitted_ts_requests": 0, "explicit_ts_requests": 0, "streams_across_clock_events": 0,
               "midnight_crossed_between_stream_steps": 0, "model_differs_from_today": 0,
-              "excluded_two_digit_year": 0, "excluded_military_year": 0}
+              }
     n_eval = 0
     t_min = t_max = wall.t
     seen_abs = {}
@@ -480,7 +480,8 @@ def _session(prop, rng, n_req):
             if datetime(1971, 1, 1) <= nt <= datetime(2099, 12, 31):
                 evs.append({"ev": "set", "to": fmt_ts(nt), "boundary": True})
                 t = nt
-        elif prop == "C06":
+        elif prop == "C06" and rng.random() < 0.75:
+            # (the remaining quarter takes the general clock events below: ticks, jumps, boundaries)
             nt = _clock_instant(rng, f["p"][0], f["p"][1], lo, hi)
             if f["t"] in ("clock:{hh}{mm} uhr", "clock:{hh}{mm}h") and f["p"][0] == 20 \
                     and rng.random() < 0.6:
